@@ -218,6 +218,28 @@ func (d *Decoder) readClassDef() (interface{}, error) {
 	return cls, nil
 }
 
+// skipValue consumes the value of a wire field the Go type does not have. A
+// sender that added the field may also have added the class of its value:
+// whatever the type map does not know is read generically and dropped.
+func (d *Decoder) skipValue() error {
+	d.skipping++
+	defer func() { d.skipping-- }()
+	_, err := d.ReadData()
+	return err
+}
+
+// skipObject consumes an instance of a class the type map does not know
+// (inside a skipped value): it takes its reference number like any instance.
+func (d *Decoder) skipObject(cls ClassDef) (interface{}, error) {
+	d.addDecoderRef(reflect.ValueOf(&struct{}{}))
+	for i := 0; i < len(cls.FieldName); i++ {
+		if _, err := d.ReadData(); err != nil {
+			return nil, newCodecError("skipObject", "failed to skip field '%s'", cls.FieldName[i], err)
+		}
+	}
+	return nil, nil
+}
+
 //readTagObject read tag object
 func (d *Decoder) readTagObject() (interface{}, error) {
 	i, err := d.readInt(_tagRead)
@@ -231,6 +253,9 @@ func (d *Decoder) readTagObject() (interface{}, error) {
 	clsD := d.clsDefList[idx]
 	typ, ok := d.typMap[clsD.FullClassName]
 	if !ok {
+		if d.skipping > 0 {
+			return d.skipObject(clsD)
+		}
 		return nil, newCodecError("readTagObject", "undefined type: %s", clsD.FullClassName)
 	}
 	return EnsureInterface(d.readObject(typ, clsD))
@@ -245,6 +270,9 @@ func (d *Decoder) ReadLenTagObject(tag byte) (interface{}, error) {
 	clsD := d.clsDefList[i]
 	typ, ok := d.typMap[clsD.FullClassName]
 	if !ok {
+		if d.skipping > 0 {
+			return d.skipObject(clsD)
+		}
 		return nil, newCodecError("ReadLenTagObject", "undefined type: %s", clsD.FullClassName)
 	}
 	return EnsureInterface(d.readObject(typ, clsD))
@@ -286,7 +314,7 @@ func (d *Decoder) readObject(typ reflect.Type, cls ClassDef) (interface{}, error
 		if err != nil {
 			hlog.Debugf("%s is not found, will skip type ->p %v", fldName, typ)
 			// the value of the unknown field still has to be consumed
-			if _, err = d.ReadData(); err != nil {
+			if err = d.skipValue(); err != nil {
 				return nil, newCodecError("readObject", "failed to skip field '%s'", fldName, err)
 			}
 			continue
